@@ -141,9 +141,13 @@ REG['C11'] = dict(
          'rejects boxes separated in both axes; what a region stores is exactly mask\'s answer for the candidates, in line order, '
          'with the line\'s heights; a line mask rejects is never placed; the longest piece is the first maximum. NOT decided by '
          'proof: everything shapely computes (clipped baseline a piece of the detected one and inside the region, outline clipped, '
-         'inside-lines unchanged, untouched never placed) - judged by an independent float-geometry oracle on the real output, over '
+         'inside-lines unchanged, untouched never placed) for GENERAL polygons - judged by an independent float-geometry oracle on the real output, over '
          'rectangles, concave U/C shapes, convex polygons and SELF-TOUCHING rings (pinched in a vertex, frame with a slit). Two defects '
-         'found this way are fixed (clipping to the convex hull of a self-touching region; longest piece fragmented along a boundary).',
+         'found this way are fixed (clipping to the convex hull of a self-touching region; longest piece fragmented along a boundary). '
+         'For RECTANGULAR regions the clipping itself is a theorem: Clip.clipPolyline (Liang-Barsky on exact rationals) is sound and '
+         'complete per segment (a parameter is kept iff its point lies in the rectangle), every placed vertex lies in the region and on '
+         'the detected baseline, a baseline wholly inside is returned unchanged as one piece, one that does not touch yields nothing; '
+         'exact correspondence of shapely\'s intersection and of the real mask_textline_by_region (longest piece) with that model.',
     note='Trusted: shapely; float32 casts of coordinates < 2^24; merge loop termination (assumed).',
     technique='Lean 4 proof (string injectivity, fold invariants) with shapely as a parameter + geometry oracle (partial)',
     ref='§5-C11')
@@ -199,7 +203,8 @@ REG['C16'] = dict(
     text='Lean 4 theorems for every ordered field: per-character line confidences (CTC and transformer branch), letter '
          'confidences, the run-wise line confidence, medians and bag posteriors/confidence (C03) are in [0,1] for posteriors in '
          '[0,1]; the CTC computation is defined (every window non-empty) for every strictly increasing in-range alignment with no '
-         'bound on the number of frames; one-hot windows give exactly 1; the confident-line test is monotone in its threshold. '
+         'bound on the number of frames (the window border (a+1+a\')//2 and the end sentinel max(1000,T) are REGENERATED from the source; '
+         'obligations cfg_nextBorder / cfg_sentinel); one-hot windows give exactly 1; the confident-line test is monotone in its threshold. '
          'Over the reals: exp(log_softmax) sums to 1, lies in (0,1], and is invariant under a per-frame constant. Correspondence: '
          'the probabilities the code itself computes are sent as exact dyadics, outputs agree within 1e-12; the confident-line test is '
          'exercised at ALL kinds of thresholds (negative incl. -inf, 0, (0,1), 1, > 1 incl. inf, next to the decisive value).',
